@@ -1,6 +1,6 @@
 #![allow(clippy::excessive_precision)]
 use crate::DualNum;
-use num_traits::{Float, Zero};
+use num_traits::Float;
 use std::f64::consts::{FRAC_2_PI, FRAC_PI_4};
 
 /// Implementation of bessel functions for double precision (hyper) dual numbers.
@@ -51,8 +51,11 @@ pub trait BesselDual: DualNum<f64> + Copy {
 
     /// 2nd order bessel function of the first kind
     fn bessel_j2(self) -> Self {
-        if self.re().is_zero() {
-            self * self / 8.0 * (self * self / 24.0 + 1.0)
+        if self.re().abs() < 1.0e-5 {
+            // J2(x) = x^2/8 (1 - x^2/12 + ...); the recurrence below divides by x and cancels
+            // catastrophically (NaN / inf in the derivative parts) for tiny non-zero arguments
+            let z = self * self;
+            z / 8.0 * (Self::one() - z / 12.0)
         } else {
             self.bessel_j1() * 2.0 / self - self.bessel_j0()
         }
